@@ -77,6 +77,10 @@ def generate(rng, tier, shard, nshards):
             if rng.random() < 0.15:     # decimal years just below a tenth / an epoch boundary
                 dd = float(rng.choice([2019.999, 2024.999, 2017.549, 2022.348, 2021.048, 2026.951, 2019.949, 2015.051]))
             qs.append({"kind": kind, "lat": lat, "lon": lon, "h": h, "date": dd})
+            if j > 0 and i % 3 == 2 and rng.random() < 0.25:
+                # the public attribute `frame` re-assigned between two queries (a method query has no frame argument): the next answer is in that frame
+                qs[-1]["pre"] = ["set_frame", gens.spell(str(rng.choice(["NED", "ENU"])), int(rng.integers(5)))]
+                qs[-1]["kind"] = "explicit"
             if j > 0 and i % 3 == 1 and rng.random() < 0.35:
                 # the object's public state methods called by hand between two queries (with a date of any epoch): the next dated query must not care
                 qs[-1]["pre"] = [str(rng.choice(["reset_date", "reset_coefficients", "load_coefficients"])), draw_date(rng, bool(rng.random() < 0.5))]
@@ -155,7 +159,11 @@ def check_history(case, ctx):
             if w is None:
                 w = WMM(frame=frame)
                 cur_date = None
-            if q.get("pre") and w is not None:
+            if q.get("pre") and w is not None and q["pre"][0] == "set_frame":
+                w.frame = q["pre"][1]
+                frame = q["pre"][1]
+                log.append(("frame =", frame))
+            elif q.get("pre") and w is not None:
                 meth, d2 = q["pre"]
                 pre = call(lambda: getattr(w, meth)(w.wmm_filename) if meth == "load_coefficients" else getattr(w, meth)(d2))
                 if not ctx.returned(pre, clause="no-exception[%s() called by hand]" % meth, route=route):
